@@ -337,6 +337,76 @@ fn assumptions(prop: &str) -> Vec<String> {
     v
 }
 
+/// Determinism proof obligation: the same seeds executed in different processes, with worker
+/// counts 1 and 16, must give identical fingerprints (every API outcome, every SimOS event
+/// including bytes written, every scheduling decision, every counter).
+fn cmd_selftest(tier: &str) -> i32 {
+    let t0 = std::time::Instant::now();
+    let base = verif_seed();
+    let per_prop: u64 = if tier == "thorough" { 2000 } else { 300 };
+    let mut results = Vec::new();
+    let mut bad = 0u64;
+    for prop in props::ALL {
+        let (engine, _) = plan(prop, "quick");
+        let exe = if engine == "shuttle" { std::path::PathBuf::from(props::sh_exe()) } else { std::env::current_exe().unwrap() };
+        let count = match engine {
+            "fault" | "cfg" => per_prop / 10,
+            "crash" | "corrupt" | "long" => per_prop / 3,
+            _ => per_prop,
+        }
+        .max(16);
+        let run = |stride: u64| -> BTreeMap<u64, String> {
+            let mut children = Vec::new();
+            for w in 0..stride {
+                let ch = std::process::Command::new(&exe)
+                    .args(["traces", prop, "quick", &w.to_string(), &stride.to_string(), &base.to_string(), &count.to_string()])
+                    .stdout(std::process::Stdio::piped())
+                    .stderr(std::process::Stdio::null())
+                    .spawn()
+                    .expect("spawn");
+                children.push(ch);
+            }
+            let mut m = BTreeMap::new();
+            for ch in children {
+                let out = ch.wait_with_output().expect("wait");
+                for l in String::from_utf8_lossy(&out.stdout).lines() {
+                    let mut it = l.split_whitespace();
+                    if let (Some(i), Some(f)) = (it.next().and_then(|x| x.parse().ok()), it.next()) {
+                        m.insert(i, f.to_string());
+                    }
+                }
+            }
+            m
+        };
+        let a = run(16);
+        let b = run(3);
+        let c = run(1);
+        let mut diffs = Vec::new();
+        for (i, f) in &a {
+            if b.get(i) != Some(f) || c.get(i) != Some(f) {
+                diffs.push(*i);
+            }
+        }
+        if a.len() as u64 != count || b.len() != a.len() || c.len() != a.len() {
+            diffs.push(u64::MAX);
+        }
+        println!("selftest {}: {} seeds x 3 process layouts (16, 3, 1 workers), {} differ", prop, a.len(), diffs.len());
+        bad += diffs.len() as u64;
+        results.push(json!({"property": prop, "engine": engine, "seeds": a.len(), "layouts": [16, 3, 1], "differences": diffs.len(), "first": diffs.first()}));
+    }
+    let root = verif_root();
+    let _ = std::fs::create_dir_all(format!("{}/evidence", root));
+    let _ = std::fs::write(
+        format!("{}/evidence/selftest.json", root),
+        serde_json::to_string_pretty(&json!({"tier": tier, "seed": base, "wall_s": t0.elapsed().as_secs_f64(), "results": results})).unwrap(),
+    );
+    if bad > 0 {
+        eprintln!("HARNESS-ERROR: {} run(s) are not deterministic", bad);
+        return 2;
+    }
+    0
+}
+
 fn cmd_replay(path: &str) -> i32 {
     let doc: Value = match std::fs::read(path).ok().and_then(|b| serde_json::from_slice(&b).ok()) {
         Some(v) => v,
@@ -404,6 +474,15 @@ fn main() {
     let code = match args.first().map(|s| s.as_str()) {
         Some("check") if args.len() >= 3 => cmd_check(&args[1], &args[2]),
         Some("worker") if args.len() >= 8 => cmd_worker(&args[1..]),
+        Some("traces") if args.len() >= 7 => {
+            let (engine, _) = plan(&args[1], &args[2]);
+            worker::run_traces(&args[1..], &|prop, seed, tier| props::draw_case(prop, engine, seed, tier), &|c| props::execute(c), &|| {
+                simos::bypass(|| {
+                    let _ = std::fs::remove_dir_all(props::scratch_root());
+                })
+            })
+        }
+        Some("selftest") => cmd_selftest(args.get(1).map(|s| s.as_str()).unwrap_or("quick")),
         Some("replay") if args.len() >= 2 => cmd_replay(&args[1]),
         Some("oneshot") => cfg::oneshot(),
         Some("make-golden") if args.len() >= 2 => match compat::make_golden(&args[1]) {
